@@ -41,11 +41,11 @@ Record variant := mkv {
   v_capclose : bool;   (* 219c117: a captured last stage with a redirected stream still closes the capture ends *)
   v_capfail : bool;    (* 3c1f8de: a failing capture pipe() releases the stage pipes *)
   v_bunop : bool;      (* d4ac685: a builtin whose target cannot be opened fails with status 1 *)
-  (* PROPOSED repairs, off in the code as it is: *)
-  v_bfold : bool;      (* notes/C04-fix-3.patch: _get_std_fds as a plain left-to-right fold *)
+  v_bfold : bool;      (* c05c052: _get_std_fds as a plain left-to-right fold *)
+  (* PROPOSED repair, off in the code as it is: *)
   v_capfirst : bool    (* notes/C04-fix-4.patch: a captured last stage gets the capture pipes BEFORE its redirections *)
 }.
-Definition v0 : variant := mkv true true true true true false false.
+Definition v0 : variant := mkv true true true true true true false.
 
 Section Run.
 Variable v : variant.
@@ -157,10 +157,14 @@ Definition child_run (pipes : list (nat * nat)) (capo cape : option (nat * nat))
   match child_from st hs p with
   | inr q => mkkid idx q (OExit 1)
   | inl p =>
-    match child_redirs (idx <? pc) capture (s_redirs st) false false p with
+    (* notes/C04-fix-4.patch (v_capfirst): the capture pipes become 1 / 2 BEFORE the redirection loop, and the
+       loop has no special case for a captured stage any more *)
+    let cap := (idx =? pc) && capture in
+    let p := if cap && v_capfirst v then child_capture capo cape false false p else p in
+    match child_redirs (idx <? pc) (capture && negb (v_capfirst v)) (s_redirs st) false false p with
     | inr q => mkkid idx q (OExit 1)
     | inl (p, so, se) =>
-      let p := if (idx =? pc) && capture then child_capture capo cape so se p else p in
+      let p := if cap && negb (v_capfirst v) then child_capture capo cape so se p else p in
       child_finish idx st p
     end
   end.
@@ -245,7 +249,7 @@ Fixpoint get_std_fds (rs : list redir) (out err : option nat) (p : proc) : proc 
     end
   end.
 
-(* notes/C04-fix-3.patch: the same function as a left-to-right fold.  None = still the shell's own
+(* c05c052: the function as a left-to-right fold (off: the recursive look-ahead version before it).  None = still the shell's own
    descriptor; 2>&1 dups the CURRENT stdout target, 1>&2 the CURRENT stderr target *)
 Fixpoint get_std_fds_fold (rs : list redir) (out err : option nat) (p : proc) : proc * option nat * option nat :=
   match rs with
